@@ -340,6 +340,15 @@ class Executor:
             return frame[p[1]], ()
         if k == 'field':
             a, path = self._resolve(fn, p[1], frame, st)
+            if p[2] == 0:
+                # Box<T> is modelled as an owning reference: the elaborated box deref `(*(((b.0: Unique).0: NonNull).0: *const T))`
+                # projects through the pointer wrappers, which are the reference itself here
+                try:
+                    v = st.read(a, path)
+                except Unsupported:
+                    v = None
+                if isinstance(v, Ref):
+                    return a, path
             return a, path + (p[2],)
         if k == 'downcast':
             return self._resolve(fn, p[1], frame, st)
@@ -463,7 +472,10 @@ class Executor:
             return self.cast(a, rv[2], rv[3], st)
         if k == 'discriminant':
             v = self._read_place(fn, rv[1], frame, st)
-            return self.discriminant(v, dst_ty)
+            try:
+                return self.discriminant(v, dst_ty)
+            except Unsupported as e:
+                raise Unsupported(f'{e} in {fn.name}')
         if k == 'tuple':
             return Tup([self._operand(fn, x, frame, st) for x in rv[1]])
         if k == 'array':
@@ -637,6 +649,11 @@ class Executor:
             yield from self.run(fn, [first] + list(args), st, depth + 1)
             return
         if isinstance(f, FnItem):
+            segs = [x for x in strip_generics(f.name).split('::') if x]
+            if len(segs) >= 2 and self.src.variant_index(segs[-2], segs[-1]) is not None:
+                yield st, 'ret', Adt(segs[-2], segs[-1], list(args)); return      # enum tuple-variant constructor
+            if len(segs) >= 1 and segs[-1] in self.src.tuple_structs and segs[-1] not in self.src.structs:
+                yield st, 'ret', Adt(segs[-1], None, list(args)); return           # tuple-struct constructor
             yield from self.call(f.name, list(args), st, depth); return
         if isinstance(f, Adt) and f.variant is None and not f.items:
             # zero-sized fn item printed as a path const
